@@ -234,7 +234,7 @@ def save_replay(prop, name, obj):
 from concurrent.futures import ThreadPoolExecutor
 
 
-def _validate_chunk(dirpath, module, tracespec, consts, cfg_lines, evs, max_rounds, timeout):
+def _validate_chunk(dirpath, module, tracespec, consts, cfg_lines, evs, max_rounds, timeout, sigfn=None):
     stage_specs(dirpath)
     write_mc(dirpath, module, tracespec, consts, cfg_lines)
     rejections = []
@@ -257,7 +257,14 @@ def _validate_chunk(dirpath, module, tracespec, consts, cfg_lines, evs, max_roun
         bad = evs[n - 1]
         rejections.append(dict(prog=bad.get("prog"), fork=bad.get("fork", 0), index=n, event=bad))
         stats["states"] += r.generated
-        if bad.get("fork", 0) > 0:   # one alternative tried from a checkpoint: drop only that alternative
+        if sigfn is not None and bad.get("fork", 0) > 0:
+            # drop every event with the same failure signature (they are reported once, through this one)
+            # independent events ("indep") go alone, dependent ones take their whole program with them
+            sg = sigfn(bad)
+            hit = [e for e in evs if e.get("fork", 0) > 0 and sigfn(e) == sg]
+            gone = set(e.get("prog") for e in hit if not e.get("indep"))
+            evs = [e for e in evs if e.get("prog") not in gone and not (e.get("indep") and e.get("fork", 0) > 0 and sigfn(e) == sg)]
+        elif bad.get("fork", 0) > 0:   # one alternative tried from a checkpoint: drop only that alternative
             evs = [e for e in evs if not (e.get("prog") == bad.get("prog") and e.get("fork", 0) == bad.get("fork"))]
         else:
             evs = [e for e in evs if e.get("prog") != bad.get("prog")]
@@ -267,7 +274,7 @@ def _validate_chunk(dirpath, module, tracespec, consts, cfg_lines, evs, max_roun
     return rejections, stats
 
 
-def validate_programs(dirpath, module, tracespec, consts, cfg_lines, lines, max_rounds=25, timeout=1800, chunks=None):
+def validate_programs(dirpath, module, tracespec, consts, cfg_lines, lines, max_rounds=25, timeout=1800, chunks=None, sigfn=None):
     """Validate an ndjson trace made of independent programs (each starting with a Reset event)
     against a trace specification.  When TLC rejects line n, the program (or the alternative tried
     from a checkpoint) containing it is set aside as a rejection and the rest is validated again,
@@ -282,7 +289,7 @@ def validate_programs(dirpath, module, tracespec, consts, cfg_lines, lines, max_
         groups[where[e.get("prog")]].append(e)
     base = os.path.basename(dirpath.rstrip("/"))
     with ThreadPoolExecutor(max_workers=k) as ex:
-        futs = [ex.submit(_validate_chunk, scratch("%s-tv%d" % (base, i)), module, tracespec, consts, cfg_lines, g, max_rounds, timeout)
+        futs = [ex.submit(_validate_chunk, scratch("%s-tv%d" % (base, i)), module, tracespec, consts, cfg_lines, g, max_rounds, timeout, sigfn)
                 for i, g in enumerate(groups) if g]
         results = [f.result() for f in futs]
     rejections, stats = [], dict(states=0, distinct=0, runs=0, events_accepted=0, wall=0.0)
@@ -335,7 +342,7 @@ class Ctx:
     def violation(self, desc, replay_obj, sig=None):
         """Report a reproduced violation unless it is a listed known finding."""
         for k in self.known:
-            if sig is not None and k.get("signature") == sig:
+            if sig is not None and (k.get("signature") == sig or (k.get("signature_re") and re.fullmatch(k["signature_re"], sig))):
                 if k not in self.known_hits:
                     self.known_hits.append(k)
                 return
